@@ -433,6 +433,7 @@ var positions = []string{
 	`<my-comp :p="v"></my-comp>`,
 	`<p>{{ v | file }}</p>`,
 	`<p v-once>{{ v }}</p><p v-pre>{{ v }}</p>`,
+	`<p>{{ joinn(2, "a", "b") }} {{ joinn(v, "a") }} {{ joinn(1, v, v) }} {{ v | joinn("x") }} {{ joinn(3) }} {{ sumall("s", 1, 2) }} {{ sumall(v, v) }} {{ sumall("s", v, 1) }} {{ v | sumall }} {{ ctxonly(v) }} {{ v | ctxonly }}</p><i :title="joinn(1, v)" v-if="sumall(v, 1)">x</i>`,
 	`<p>{{ v.CreatedBy }} {{ v.ID }} {{ v.title }} {{ v.BaseE }} {{ v.BaseE.CreatedBy }} {{ v.Inner.CreatedBy }} {{ v.a.CreatedBy }} {{ v.k.ID }}</p><i v-for="x in v">{{ x.CreatedBy }} {{ x.title }} {{ x.ID }}</i><b v-if="v.CreatedBy">c</b><u :title="v.ID" v-show="v.Inner.ID">u</u>`,
 }
 
